@@ -893,11 +893,14 @@ def tag : V → R UInt8
 def data : V → R Bytes
   | .obj "p.dhcpoption" [_, .bytes d] => .ok d
   | _ => .panic
-/-- dhcpoption.Len(): `uint16(len(self.data) + 2)` whatever the tag -/
-def len (o : V) : R UInt16 := do let d ← data o; .ok (n16 (d.length + 2))
+def isPadOrEnd (t : UInt8) : Bool := t.toNat == Gen.protocol.DHCP_OPT_PAD || t.toNat == Gen.protocol.DHCP_OPT_END
+/-- dhcpoption.Len(): 1 for a pad or end option (a lone tag byte), `uint16(len(self.data) + 2)` otherwise -/
+def len (o : V) : R UInt16 := do
+  let t ← tag o
+  let d ← data o
+  .ok (if isPadOrEnd t then 1 else n16 (d.length + 2))
 /-- DHCPNewOption(tag, data) -/
 def mk (t : UInt8) (d : Bytes) : V := .obj "p.dhcpoption" [V.u8 t, .bytes d]
-def isPadOrEnd (t : UInt8) : Bool := t.toNat == Gen.protocol.DHCP_OPT_PAD || t.toNat == Gen.protocol.DHCP_OPT_END
 /-- DHCPMarshalOption -/
 def marshalOption (o : V) : R Bytes := do
   let t ← tag o
@@ -960,12 +963,15 @@ def optBytes : List V → R Bytes
     let r ← optBytes os
     pure (b ++ r)
 
+/-- dhcpIP4: `b := make([]byte, 4); copy(b, ip.To4())` — the 4-byte wire form of an address field -/
+def ip4 (ip : Bytes) : Bytes := copyInto (zeros 4) (pIpTo4 ip)
+
 /-- the content of the bytes.Buffer that DHCP.Read assembles (binary.Write of a slice writes all its bytes) -/
 def readBuf : V → R Bytes
   | .obj "p.DHCP" [.num op, .num ht, .num hl, .num ho, .num xid, .num secs, .num fl, .bytes cip, .bytes yip, .bytes sip,
       .bytes gip, .bytes hw, .bytes sname, .bytes file, .list os] => do
     let hdr := [n8 op, n8 ht, n8 hl, n8 ho] ++ be32 (n32 xid) ++ be16 (n16 secs) ++ be16 (n16 fl)
-      ++ cip ++ yip ++ sip ++ gip ++ copyInto (zeros 16) hw ++ pFitTo 64 sname ++ pFitTo 128 file ++ be32 magic
+      ++ ip4 cip ++ ip4 yip ++ ip4 sip ++ ip4 gip ++ copyInto (zeros 16) hw ++ pFitTo 64 sname ++ pFitTo 128 file ++ be32 magic
     let ob ← optBytes os
     let e ← hasEnd os
     let tail ← if e then .ok [] else PDhcpOpt.marshalOption (PDhcpOpt.mk (n8 Gen.protocol.DHCP_OPT_END) [])
@@ -1078,23 +1084,31 @@ def ttlWrite (v : V) (b : Bytes) : R (Nat × Bool × V) :=
 end PTLV
 
 namespace PLLDP
-def lenM (v : V) : R (UInt16 × V) := same 15 v
-/-- LLDP.Read(b): every TLV is read into the START of b (Chassis, Port, then Chassis again); result: b afterwards and n -/
+/-- (3 + |chassis id|) + (3 + |port id|) + 4, in uint16 -/
+def lenM (v : V) : R (UInt16 × V) :=
+  match v with
+  | .obj "p.LLDP" [.obj _ [_, _, _, .bytes cd], .obj _ [_, _, _, .bytes pd], _] =>
+    same (n16 (3 + cd.length) + n16 (3 + pd.length) + 4) v
+  | _ => .panic
+/-- LLDP.Read(b): chassis TLV, port TLV, ttl TLV one after the other (each `Read` copies what fits into the rest of b;
+    a call that copies nothing ends the sequence); result: b afterwards and n -/
 def read (v : V) (b : Bytes) : R (Bytes × Nat) :=
   match v with
-  | .obj "p.LLDP" [ch, pt, _] => do
+  | .obj "p.LLDP" [ch, pt, ttl] => do
     let cb ← PTLV.readBuf "p.ChassisTLV" ch
     let m := min b.length cb.length
     let b1 := copyInto b cb
     if m = 0 then .ok (b1, 0) else do
       let pb ← PTLV.readBuf "p.PortTLV" pt
-      let o := min b.length pb.length
-      let b2 := copyInto b1 pb
-      if o = 0 then .ok (b2, m) else
-        let b3 := copyInto b2 cb
-        .ok (b3, m + o + m)
+      let o := min (b.length - m) pb.length
+      let b2 := b1.take m ++ copyInto (b1.drop m) pb
+      if o = 0 then .ok (b2, m) else do
+        let tb ← PTLV.ttlReadBuf ttl
+        let p := min (b.length - (m + o)) tb.length
+        let b3 := b2.take (m + o) ++ copyInto (b2.drop (m + o)) tb
+        .ok (b3, m + o + p)
   | _ => .panic
-/-- LLDP.Write(b): Chassis, Port, then Chassis AGAIN (the TTL TLV is never parsed); the error of the last call counts -/
+/-- LLDP.Write(b): chassis, port, ttl; the error of the last call made counts -/
 def write (v : V) (b : Bytes) : R (V × Nat) :=
   match v with
   | .obj "p.LLDP" [ch, pt, ttl] => do
@@ -1102,8 +1116,8 @@ def write (v : V) (b : Bytes) : R (V × Nat) :=
     if m = 0 then (if e1 then .err else .ok (.obj "p.LLDP" [ch1, pt, ttl], 0)) else do
       let (o, e2, pt1) ← PTLV.write "p.PortTLV" pt (b.drop m)
       if o = 0 then (if e2 then .err else .ok (.obj "p.LLDP" [ch1, pt1, ttl], m)) else do
-        let (p, e3, ch2) ← PTLV.write "p.ChassisTLV" ch1 (b.drop (m + o))
-        if e3 then .err else .ok (.obj "p.LLDP" [ch2, pt1, ttl], m + o + p)
+        let (p, e3, ttl1) ← PTLV.ttlWrite ttl (b.drop (m + o))
+        if e3 then .err else .ok (.obj "p.LLDP" [ch1, pt1, ttl1], m + o + p)
   | _ => .panic
 end PLLDP
 
@@ -1276,7 +1290,7 @@ def methodsProtoBase : MethodTab := [
   ("p.DHCP.Write", fun recv args => match args with
     | [.bytes b] => do let (v', n) ← PDHCP.write recv b; .ok (v', [.num n])
     | _ => .panic),
-  ("p.LLDP.Len", fun recv _ => .ok (recv, [.num 15])),
+  ("p.LLDP.Len", fun recv _ => do let (l, _) ← PLLDP.lenM recv; .ok (recv, [.num l.toNat])),
   ("p.LLDP.Read", fun recv args => match args with
     | [.bytes b] => do let (_, n) ← PLLDP.read recv b; .ok (recv, [.num n])
     | _ => .panic),
